@@ -69,7 +69,8 @@ TraceList == /\ IsEvent("List")
                    /\ Report(IF plain THEN ListMismatches(w, ev.obs) \cup EdgeLawMismatches(ev.obs)
                                             \cup (IF DistinctKeys(w) THEN IngressMismatches(w, ev.obs) ELSE {})
                              ELSE IF expo /\ NoAdmin(w) /\ DistinctKeys(w)
-                             THEN BaseUntouchedMismatches(obsL, ev.obs)
+                             THEN (IF ev.obs.outcome = "panic" THEN {<<"panic", ev.obs.errMsg>>} ELSE {})
+                                  \cup BaseUntouchedMismatches(obsL, ev.obs)
                                   \cup (IF ev.obs.outcome = "ok"
                                         THEN SoundnessMismatches(w, ev.obs) \cup CompletenessMismatches(w, ev.obs) ELSE {})
                              ELSE {})
